@@ -98,14 +98,14 @@ pub fn def(prop: &str) -> Option<PropDef> {
             assumptions: vec![
                 "main.rs (argument parsing, tracing, stdio/TCP transport choice, multi-thread runtime) is outside the simulation; the server is built exactly as main.rs builds it, over simulated pipes",
                 "handlers only suspend at the seams the simulator owns (client bytes, client answers, tokio::fs gates, stdout room); tokio::sync locks and tower-lsp's FuturesUnordered are woken deterministically as a consequence",
-                "the editor answers workspace/configuration with its current settings and never with an error; it sends well-formed messages only",
+                "the editor answers workspace/configuration with its current settings, or (one session in eight) answers it and client/registerCapability with MethodNotFound for the whole session while its settings stay at the defaults; it sends well-formed messages only",
             ],
             must_reach: if crate::LS_CONCURRENCY_LEVEL > 1 {
-                vec!["handlers_overlapped_2", "handlers_overlapped_3", "answers_out_of_order", "fs_ops_overlapped", "frame_fragmented", "last_word_checked_nonempty", "spawn", "sent_back_to_back"]
+                vec!["handlers_overlapped_2", "handlers_overlapped_3", "answers_out_of_order", "fs_ops_overlapped", "frame_fragmented", "last_word_checked_nonempty", "spawn", "sent_back_to_back", "config_answered_with_error"]
             } else {
                 // main.rs serves one request at a time: handlers cannot overlap, only file operations,
                 // deliveries, answers and drains interleave
-                vec!["fs_ops_overlapped", "frame_fragmented", "last_word_checked_nonempty", "spawn", "sent_back_to_back", "restart_orderly"]
+                vec!["fs_ops_overlapped", "frame_fragmented", "last_word_checked_nonempty", "spawn", "sent_back_to_back", "restart_orderly", "config_answered_with_error"]
             },
             real: vec!["harper-ls: backend.rs, document_state.rs, diagnostics.rs, pos_conv.rs, dictionary_io.rs, config.rs, git_commit_parser.rs (compiled from /repo by #[path])", "tower-lsp 0.20 (LspService, Server::serve, codec, buffer_unordered, Client, pending tables)", "tokio::sync::{Mutex,RwLock}, tokio::io::{BufReader,BufWriter}", "harper-core, harper-comments, harper-html, harper-typst, harper-literate-haskell, harper-stats", "the file system (tmpfs directory private to the run)"],
             stub: vec!["harper-ls main.rs", "tokio runtime (single-threaded flag-waker executor)", "tokio::fs (shim: simulator gate, then the real std::fs operation)", "the editor (client model)", "libc clock_gettime/getrandom (simulated clock, seeded PRNG); socket calls refused"],
